@@ -146,6 +146,8 @@ def run(ck):
         for i, j, st in T.stores_to_field(b, "is_registered"):
             if b.is_cleanup(i) or st["rv"]["r"] != "use" or T.const_value(b, st["rv"]["o"], 8) != 0:
                 continue
+            if st.get("via") == "mem::replace":
+                continue  # test-and-clear: the loop below looks at the 'was registered' edge
             if any(s2["s"] == "assign" and s2["rv"]["r"] == "agg" for s2 in [st]):
                 continue
             n2b += 1
